@@ -29,6 +29,12 @@ def prog_hook(prog, rng):
     names = list(prog.tasks)
     for n in rng.sample(names, min(len(names), rng.randint(1, 2))):
         prog.tasks[n].sequential = True
+    # (separate stream: the draws above stay as they were)
+    import random
+    r2 = random.Random(repr(rng.getstate()[1][:4]))
+    if r2.random() < 0.4:
+        # listed through a family, inherited as first or second parent
+        prog.seq_family = r2.choice(['first', 'second'])
 
 
 class SeqLaunch(Monitor):
